@@ -17,8 +17,12 @@ class Model:
     fault    : optional callable (name, call_index) -> None | "nan" | "inf" | "-inf" | Exception instance
     """
 
-    def __init__(self, n=3, *, with_aux=False, fault=None, shift=0.0, curved=True):
+    def __init__(self, n=3, *, with_aux=False, fault=None, shift=0.0, curved=True, const_jac=False):
         self.n, self.with_aux, self.fault, self.shift, self.curved = n, with_aux, fault, shift, curved
+        # const_jac: a linear constraint's Jacobian function returns the SAME array object on every call
+        # (natural for `lambda q: A`), so identity of the returned object says nothing about the state
+        self.const_jac = const_jac and not curved
+        self._const_jac_array = None
         self.calls = Counter()
         self.k = 1 if n == 2 else 2  # number of constraints
 
@@ -123,6 +127,10 @@ class Model:
 
     def jacob_constr(self, q):
         f = self._enter("jacob_constr")
+        if self.const_jac and f is None:
+            if self._const_jac_array is None:
+                self._const_jac_array = self._jac(q)
+            return (self._const_jac_array, self._c(q)) if self.with_aux else self._const_jac_array
         j = self._poison(self._jac(q), f)
         return (j, self._c(q)) if self.with_aux else j
 
